@@ -124,7 +124,7 @@ Fixpoint ttr (e : cfg) (opt : bool) (bs : list (str * extractor)) (t : triple) (
       | XVal v =>
           match get bnd k with
           | None => ttr e opt rest t (set r k v) (set bnd k v)
-          | Some v0 => if cell_eqb v0 v then ttr e opt rest t (set r k v) (set bnd k v) else Ok None
+          | Some v0 => if same_value e v0 v then ttr e opt rest t (set r k v) (set bnd k v) else Ok None
           end
       end
   end.
